@@ -177,7 +177,7 @@ func (b *builder) deployOn(h *host.Host, addr common.Address, c contractSrc, dep
 	}
 	src := c.Source
 	snap := h.Snapshot()
-	res := h.Deploy(addr, c.Name, src, host.Interp)
+	res := loadDeploy(h, addr, c.Name, src)
 	if res.Err != nil || res.Panic != nil {
 		h.Restore(snap)
 		return nil, false
@@ -512,7 +512,7 @@ func assemble(b *Base, src string, r *rand.Rand) (prog.History, string) {
 			return hist, rej(c)
 		}
 		name := soleContractName(c.Program.Program)
-		res := h.Deploy(host.Addr(1), name, src, host.Interp)
+		res := loadDeploy(h, host.Addr(1), name, src)
 		if res.Err != nil || res.Panic != nil {
 			return hist, RejDeploy
 		}
